@@ -77,7 +77,50 @@ def mk_journal_file(tmp: str, lock: str = "symlink") -> Handle:
         lock_obj = JournalFileSymlinkLock(path) if lock == "symlink" else JournalFileOpenLock(path)
         return JournalStorage(JournalFileBackend(path, lock_obj=lock_obj))
 
-    return Handle("journal-%s" % lock, mk(), peer=mk, base="journal-file")
+    first = mk()
+    n_peers = itertools.count()
+
+    def peer() -> JournalStorage:
+        # every other peer reaches its "process" the way multiprocessing hands a storage to a worker: by pickle
+        if next(n_peers) % 2 == 0:
+            import pickle
+
+            return pickle.loads(pickle.dumps(first))
+        return mk()
+
+    return Handle("journal-%s" % lock, first, peer=peer, base="journal-file")
+
+
+class same_ident_across_processes:
+    """Context manager: inside optuna/storages/journal/_storage.py, `threading.get_ident()` answers the index of the
+    calling harness thread WITHIN its storage object ("process"): the first thread of every process gets the same
+    ident, as the main threads of forked worker processes do.  Worker ids must still be distinct per storage object."""
+
+    def __init__(self, thread_index: Callable[[], Any], n_processes: int) -> None:
+        self._idx = thread_index
+        self._n = max(n_processes, 1)
+
+    def __enter__(self) -> "same_ident_across_processes":
+        import threading as _th
+
+        import optuna.storages.journal._storage as _js
+
+        outer = self
+
+        class _T:
+            def __getattr__(self, name: str) -> Any:
+                return getattr(_th, name)
+
+            def get_ident(self) -> int:
+                i = outer._idx()
+                return _th.get_ident() if i is None else 1000 + int(i) // outer._n
+
+        self._js, self._old = _js, _js.threading
+        _js.threading = _T()  # type: ignore[assignment]
+        return self
+
+    def __exit__(self, *a: Any) -> None:
+        self._js.threading = self._old
 
 
 def mk_journal_redis(tmp: str) -> Handle:
